@@ -12,8 +12,26 @@ def config(quick):
         opt_lists=[[], [opt("JSONMode", 1)], [opt("JSONMode", 3)], [opt("ColorMode", 1)], [opt("ColorMode", 3)],
                    [opt("JSONMode", 2), opt("ColorMode", 4)], [opt("ColorMode", 2), opt("JSONMode", 5)],
                    [opt("JSONMode", 4)], [opt("ColorMode", 5)]],
-        setter_args=modes, acts=["Set", "With", "New"] + ([] if quick else ["NewDetached"]), probe_sevs=[4, 2],
+        setter_args=modes, acts=["Set", "With", "New"] + ([] if quick else ["NewDetached"]),
+        # probe records of every severity class have the logger's shape: built-in, auxiliary, custom levels
+        # registered without colours (treated-as / error device or neither), an unregistered value
+        probe_sevs=[4, 2, 5, 8, 9, 11, 13, 14, 15, 99],
+        customs=[dict(v=13, title="NOTICE13", treat=4, err=False), dict(v=14, title="SWELL14", treat=2, err=True),
+                 dict(v=15, title="PLAIN15", treat=-1, err=False)],
+        treat={9: 4, 10: 4, 11: 2, 13: 4, 14: 2}, errdev=[0, 1, 2, 3, 11, 14],
     )
+
+
+def config_handler(quick):
+    """A log/slog handler made on a logger configures it ONCE (level, colour, JSON - in that order - and the
+    caller flag); records sent through the handler afterwards never re-configure the logger, whatever mode
+    calls came in between."""
+    c = config(quick)
+    c.update(max_loggers=2, acts=["Set", "New", "MkHandler", "HEmit"], opt_lists=[[]],
+             setter_args={"JSONMode": [(1, 0), (3, 0)], "ColorMode": [(1, 0), (3, 0)]},
+             handler_opts=[dict(), dict(json=True), dict(nocolor=True, nosource=True)] + ([] if quick else [dict(json=True, nocolor=True, level=4)]),
+             max_handlers=1 if quick else 2, flag_sets=[["caller"]], probe_sevs=[4, 2, 13])
+    return c
 
 
 def apalache_inductive(ctx):
@@ -45,11 +63,14 @@ def apalache_inductive(ctx):
 def run(ctx, replay):
     c = config(ctx.quick())
     if replay:
-        return corelib.replay_core(ctx, replay, c, ["cfg", "shape", "tree"])
+        return corelib.replay_core(ctx, replay, c, ["cfg", "shape", "shapes", "tree"])
     apalache_inductive(ctx)
     corelib.run_core(ctx, c, invariants=["OneFormat", "TreeOK"], properties=["Isolation", "TreeMonotone"],
-                     obs=["cfg", "shape", "tree"], rand_count=30 if ctx.quick() else 400,
+                     obs=["cfg", "shape", "shapes", "tree"], rand_count=30 if ctx.quick() else 400,
                      rand_depth=25 if ctx.quick() else 40, rand_loggers=8 if ctx.quick() else 14)
+    corelib.run_core(ctx, config_handler(ctx.quick()), invariants=["OneFormat", "TreeOK", "FlagsOK"], properties=["Isolation"],
+                     obs=["cfg", "shape", "shapes"], rand_count=10 if ctx.quick() else 200, rand_depth=15 if ctx.quick() else 25,
+                     rand_loggers=3, tag="handler")
     ctx.assumptions += ["probe records are issued with WriteThru (explicit timestamp) and classified by first byte / escape content",
                         "package default writers are redirected to recorders through GetDefaultWriter()"]
     return ctx.finish(rule="every transition of the exhaustive MC graph (3-4 loggers, all mode calls with 0..2 boolean "
